@@ -2302,12 +2302,13 @@ void indent_text()
             && prev->GetParentType() == CT_CASE)
          {
             // issue #663 + issue #1366
-            Chunk *prev_prev_newline = pc->GetPrevNl()->GetPrevNl();
+            // the line of the closing brace, whatever lies between it and the 'break'
+            Chunk *brace_newline = prev->GetPrevNl();
 
-            if (prev_prev_newline->IsNotNullChunk())
+            if (brace_newline->IsNotNullChunk())
             {
                // This only affects the 'break', so no need for a stack entry
-               indent_column_set(prev_prev_newline->GetNext()->GetColumn());
+               indent_column_set(brace_newline->GetNext()->GetColumn());
             }
          }
       }
